@@ -26,7 +26,8 @@ var c07Kinds = []string{"caller-error", "duplicate", "empty-value", "missing-fk-
 	"pre-commit-action-error-via-derived-system-ctx", "unusable-key-via-child-store", "unusable-key-update-via-child-store",
 	"pre-commit-action-error-registered-before-tx", "unstorable-tag-nested-in-list", "unstorable-tag-top-level-in-patch",
 	"missing-link-target-in-persisted-link-set", "missing-link-target-in-persisted-link-set-via-child-store", "self-id-reference-to-missing-target", "veto-cascaded-delete-of-child-entity", "veto-delete-where", "veto-delete-where-not-found-typed",
-	"duplicate-of-id-only-entity"}
+	"duplicate-of-id-only-entity", "duplicate-name-via-child-store-create", "empty-value-via-child-store-create", "missing-fk-target-via-child-store-create",
+	"delete-of-self-referencing-root-with-children"}
 
 // an entity type that persists nothing but its id (its content would live in link sets): the entity bucket is empty
 type c07Bare struct{ Id string }
@@ -95,6 +96,14 @@ func genC07(t *rapid.T) c07Case {
 			{Kind: "create", Store: "kids", ID: "id-thx", Spec: &kit.EntSpec{Name: "name-thx", Extra: "extra-thx", Roles: []string{"r1"}}},
 			{Kind: "create", Store: "deps", ID: "id-dpx", Spec: &kit.EntSpec{Name: "d", Ref: kit.Sp("id-thx")}},
 			{Kind: "create", Store: "deps", ID: "id-dpy", Spec: &kit.EntSpec{Name: "d", Ref: kit.Sp("id-thx")}}}})
+	}
+	if rapid.IntRange(0, 3).Draw(t, "selfRootWithChildren") > 0 {
+		// a root that names itself as its parent and has children (in a store whose self reference restricts)
+		c.Setup.Txs = append(c.Setup.Txs, kit.TxSpec{Ops: []kit.Op{
+			{Kind: "create", Store: "grp", ID: "a-root", Spec: &kit.EntSpec{Name: "n"}},
+			{Kind: "update", Store: "grp", ID: "a-root", Spec: &kit.EntSpec{Name: "n", Ref: kit.Sp("a-root")}},
+			{Kind: "create", Store: "grp", ID: "b-child", Spec: &kit.EntSpec{Name: "n", Ref: kit.Sp("a-root")}},
+			{Kind: "create", Store: "grp", ID: "c-child", Spec: &kit.EntSpec{Name: "n", Ref: kit.Sp("a-root")}}}})
 	}
 	// strip caller aborts / batches from the setup: it only has to populate the database
 	for i := range c.Setup.Txs {
@@ -206,6 +215,22 @@ func failingVariant(kind string, m *kit.Model) (c07Variant, bool) {
 		v.failing = &kit.Op{Kind: "create", Store: "things", ID: fresh("things"), Spec: &kit.EntSpec{Name: e.Name}}
 	case "empty-value":
 		v.failing = &kit.Op{Kind: "create", Store: "targets", ID: fresh("targets"), Spec: &kit.EntSpec{Name: ""}}
+	case "delete-of-self-referencing-root-with-children":
+		if _, ok := m.Ents["grp"]["a-root"]; !ok || len(m.Referrers("grp", "a-root")["grp"]) < 2 {
+			return v, false
+		}
+		v.failing = &kit.Op{Kind: "delete", Store: "grp", ID: "a-root"}
+	case "duplicate-name-via-child-store-create":
+		// the parent store's rules bind an entity that is created through the child store
+		_, e := anyOf("things")
+		if e == nil {
+			return v, false
+		}
+		v.failing = &kit.Op{Kind: "create", Store: "kids", ID: fresh("things"), Spec: &kit.EntSpec{Name: e.Name, Extra: "ex-dup"}}
+	case "empty-value-via-child-store-create":
+		v.failing = &kit.Op{Kind: "create", Store: "kids", ID: fresh("things"), Spec: &kit.EntSpec{Name: "", Extra: "ex-empty"}}
+	case "missing-fk-target-via-child-store-create":
+		v.failing = &kit.Op{Kind: "create", Store: "kids", ID: fresh("things"), Spec: &kit.EntSpec{Name: "fresh-name", Ref: kit.Sp("id-missing"), Extra: "ex-ref"}}
 	case "missing-fk-target":
 		v.failing = &kit.Op{Kind: "create", Store: "holders", ID: fresh("holders"), Spec: &kit.EntSpec{Name: "h", Ref: kit.Sp("id-missing")}}
 	case "unusable-key-empty":
